@@ -461,6 +461,21 @@ def _perm(ctx, fi):
     ctx.tri(ok, nokw, 'PERM', 'each key is one stable sort: self.sort(key=sort_defs[sk], reverse=rev)',
             detail_bad=f"per-key sort call `{norm(sorts[0]) if sorts else ''}` does not pass the key's reverse flag",
             key="PERM|_sort_custom|sortcall")
+    # exactly one pass per key: no further sort call (it would order by something the key does not
+    # name), and no pass is skipped (a key given twice is applied twice: left-to-right priority)
+    extra = [c for c in sorts if 'sort_defs' not in norm(c)] if len(sorts) > 1 else []
+    other = [c for c in calls if isinstance(c.func, ast.Attribute) and c.func.attr == 'sort' and dotted(c.func) != 'self.sort']
+    ctx.check(not extra and not other, 'PERM', 'the per-key loop makes no second sort pass',
+              detail_bad=f"`{norm((extra + other)[0])[:70] if (extra + other) else ''}` is a further pass inside the key loop: it reorders "
+                         f"the list by a criterion the key does not name (an error in ANOTHER component moves an element), and, being "
+                         f"applied last, it outranks the key itself", key="PERM|_sort_custom|extra-pass",
+              where=common.loc(fi, (extra + other)[0]) if (extra + other) else None)
+    skips = [x for x in ast.walk(loop) if isinstance(x, (ast.Continue, ast.Break))]
+    ctx.check(not skips, 'PERM', 'no key is skipped in the per-key loop',
+              detail_bad=f"a `{type(skips[0]).__name__.lower() if skips else ''}` at line {skips[0].lineno if skips else 0} leaves out a sort pass: "
+                         f"with keys 's,t,s' the last key must be applied again (it is the most significant one); skipping it "
+                         f"gives the order of 's,t'", key="PERM|_sort_custom|skipped-pass",
+              where=common.loc(fi, skips[0]) if skips else None)
     revs = [c for c in calls if isinstance(c.func, ast.Attribute) and c.func.attr == 'reverse'
             or dotted(c.func) in ('reversed',)]
     ctx.check(not revs, 'PERM', 'no list reversal inside the per-key loop (reversal would undo stability)',
